@@ -2,7 +2,7 @@
 C09 — property theorems about reading a saved text back through `loadManifest` (`C10.fsLoad`).
 -/
 import ArvVerif.Proofs.C09_Marker
-import ArvVerif.Proofs.C09_Cover
+import ArvVerif.Proofs.C09_Wf
 import ArvVerif.Props.C09
 namespace ArvVerif.C09
 
@@ -47,6 +47,19 @@ directory. -/
 theorem C09_loader_makes_ancestors (txt : Bytes) (tr : C10.FsTree) (h : C10.fsLoad txt = some tr) :
     ∀ e ∈ tr.files, ∀ pre, pre ≠ [] → pre <+: e.1.dropLast → pre ∈ tr.dirs :=
   fun e he => fsLoad_cover txt tr h e.1 (List.mem_map.mpr ⟨e, he, rfl⟩)
+
+/-- **The tree `loadManifest` builds is a well-formed tree**, for ANY text it accepts (inside the grammar
+or not): file keys are pairwise distinct, directories are pairwise distinct, no path is both a file and a
+directory, every component of every path is a proper name (not empty, not `.`/`..`, no `/`), and every
+directory is listed after its parent. (Together with `C09_loader_makes_ancestors` this is what building
+C08's directory tables from the flat image needs.) -/
+theorem C09_loader_tree_wellformed (txt : Bytes) (tr : C10.FsTree) (h : C10.fsLoad txt = some tr) :
+    (tr.files.map (·.1)).Nodup ∧ tr.dirs.Nodup ∧ (∀ e ∈ tr.files, e.1 ∉ tr.dirs) ∧
+    (∀ d ∈ tr.dirs, d ≠ [] ∧ ∀ c ∈ d, NameOK c) ∧ (∀ e ∈ tr.files, e.1 ≠ [] ∧ ∀ c ∈ e.1, NameOK c) ∧
+    ParentFirst tr.dirs := by
+  have hw := fsLoad_wf txt tr h
+  exact ⟨hw.keysNodup, hw.dirsNodup, fun e he => hw.disjoint e.1 (List.mem_map.mpr ⟨e, he, rfl⟩), hw.dirComps,
+    fun e he => hw.keyComps e.1 (List.mem_map.mpr ⟨e, he, rfl⟩), hw.parentFirst⟩
 
 /-- **The whole saved text through `loadManifest`.** After a successful save of a closed tree in which
 no file has the path of a directory and whose saved sizes the loader can represent: `loadManifest`
